@@ -1,6 +1,6 @@
 import SqlObjVerif.Lemmas.Events
 import SqlObjVerif.Lemmas.EventsX
-import SqlObjVerif.Lemmas.EvMainXSetEq
+import SqlObjVerif.Lemmas.EvMainXInit
 /-!
 # C19 — row events fire exactly once, in order around the database write; listener edits of the
 create / update kwargs are what gets stored; appended post-callbacks run after the operation;
@@ -311,7 +311,7 @@ example :
 loops — on the image `absW` of a model state; `absUnit` reads the final world back.  The interface (connection, cache,
 validators, the cascade inside `destroySelf`) is stated in the header of Model/EvMainX.lean.  `__init__` / `_create` /
 `_SO_finishCreate` (+ its postponed `_send_RowCreatedSignal` thunk) / `_init` / `_SO_setValue` are translated on every run
-too and RUN below on concrete configurations (kernel evaluation: witnesses, not ∀-theorems). -/
+too and proved equal to `opCreate` / `opAssign` below (`C19_translated_create_eq_model`, `C19_translated_setValue_eq_model`). -/
 
 /-- **`obj.set(**kw)` as translated = the model's `opSet`**: same table, same pending values, same ordered log
     [RowUpdateSignal × listeners, UPDATE, RowUpdatedSignal × listeners, callbacks], same outcome — for every listener list,
@@ -389,9 +389,44 @@ theorem C19_translated_post_funcs_run_after (fuel : Nat) (c : Cfg) (s : State) (
   refine ⟨ht'.trans (hp [] [] 0).2.2.2.2.1, fun pre suf p hps => ?_⟩
   exact (hp pre suf p).2.1 (ht'.symm.trans hps)
 
+
+/-- **`obj.<col k> = v` as translated (`_SO_setValue`) = the model's `opAssign`** — for every listener list, state, column and
+    value, eager and lazy: the one-key dict goes to the RowUpdateSignal listeners; when they leave it a one-key dict for the
+    same column the value is validated and written (or kept pending) and RowUpdatedSignal + callbacks follow; when a listener
+    CHANGED the dict (added / removed / renamed a key) the translated code sets `row_update_sig_suppress`, runs the translated
+    `set(**d)` (which then sends no second RowUpdateSignal), removes the flag in its `finally:` and returns — one before-block,
+    one UPDATE, one after-block. -/
+theorem C19_translated_setValue_eq_model (fuel : Nat) (c : Cfg) (s : State) (h : Nat) (o : Events.Obj) (cv : Kw) (k : Nat) (v : Val)
+    (ho : s.objs[h]? = some o) (hrep : Rep c.ncols cv o.pending) (hk : k < c.ncols) :
+    absUnit s h (setValueX fuel (absW c s (pyObj o cv)) k v) = some (opAssign c s h o k v) :=
+  setValueX_eq fuel c s h o cv k v ho hrep hk
+
+/-- **`Cls(**kw)` as translated = the model's `opCreate`** — `__init__` (thread-local `postponed_calls` created by this outermost
+    constructor, RowCreateSignal with the caller's `kw` and `post_funcs`), `_create` (defaults), `set` in creating mode,
+    `_SO_finishCreate` (INSERT, `_init`, the `_send_RowCreatedSignal` closure appended), the callbacks, and the `finally:` flush
+    (the thunk: RowCreatedSignal + its callbacks) and `del` of the list — for every listener list, state and kwargs dict
+    (distinct keys): success, a rejected value or an unknown keyword after the listeners' edits (before-events only, nothing
+    stored, the list removed), lazy and eager classes.  Hypotheses: at least one column (`_init` reads the row back), the next
+    AUTOINCREMENT id is not in the table, and the flush may visit ≥ 2 entries (`fuel = f + 2`). -/
+theorem C19_translated_create_eq_model (f : Nat) (c : Cfg) (s : State) (kw : Kw) (hnd : (kw.map (·.1)).Nodup) (hn : 0 < c.ncols)
+    (hfresh : rowOf? s.rows s.nextId = none) :
+    absNew s (initX (f + 2) (createX (f + 2)) (absW c s newObj) (PyEv.kwPV kw)) = some (opCreate c s kw) :=
+  initX_eq f c s kw hnd hn hfresh
+
+/-- **events exactly once, in order, and the rewritten kwargs stored — create, about the translated source.** -/
+theorem C19_translated_events_once_in_order_create (f : Nat) (c : Cfg) (s : State) (kw : Kw) (hnd : (kw.map (·.1)).Nodup)
+    (hn : 0 < c.ncols) (hfresh : rowOf? s.rows s.nextId = none) :
+    ∃ s' log out, absNew s (initX (f + 2) (createX (f + 2)) (absW c s newObj) (PyEv.kwPV kw)) = some (s', log, out)
+      ∧ (out = .ok → tags log = createShape c s.nextId
+          ∧ s'.rows = s.rows ++ [(s.nextId, newRow c (rewrite .create c.listeners kw))])
+      ∧ (out ≠ .ok → tags log = evTags c .create ∧ s' = s) := by
+  refine ⟨_, _, _, initX_eq f c s kw hnd hn hfresh, fun hok => ⟨(C19_events_once_in_order_create c s kw).1 hok, ?_⟩,
+    (C19_events_once_in_order_create c s kw).2⟩
+  exact (C19_rewrite_is_stored_create c s kw hok).1
+
 /-! ### concrete runs of the translated `__init__` → `_create` → `set` → `_SO_finishCreate` → `_init` → postponed thunk, and of
-`_SO_setValue` (kernel evaluation of the translated programs; witnesses — the ∀-statement for these is the hand model's,
-tied by the correspondence run) -/
+`_SO_setValue` (kernel evaluation of the translated programs: instances of `C19_translated_create_eq_model` /
+`C19_translated_setValue_eq_model`, kept as fast witnesses that break under a semantic edit of the source) -/
 
 /-- `Cls(c0=1)`: a RowCreateSignal listener rewrites the kwargs, another appends a callback; two RowCreatedSignal listeners:
     the translated constructor produces exactly the model's state, ordered log and outcome -/
